@@ -470,7 +470,7 @@ impl HelpTemplate<'_, '_> {
         debug!("HelpTemplate::write_args {_category}");
         // The shortest an arg can legally be is 2 (i.e. '-x')
         let mut longest = 2;
-        let mut ord_v = BTreeMap::new();
+        let mut ord_v = Vec::new();
 
         // Determine the longest
         for &arg in args.iter().filter(|arg| {
@@ -499,8 +499,10 @@ impl HelpTemplate<'_, '_> {
             }
 
             let key = (sort_key)(arg);
-            ord_v.insert(key, arg);
+            ord_v.push((key, arg));
         }
+        // Stable: args whose keys coincide (`-c` and `--c0`) are both kept, in definition order
+        ord_v.sort_by(|a, b| a.0.cmp(&b.0));
 
         let next_line_help = self.will_args_wrap(args, longest);
 
